@@ -5,6 +5,7 @@ use std::cell::RefCell;
 
 thread_local! {
     static LAST: RefCell<Option<(String, String)>> = const { RefCell::new(None) };
+    static DEPTH: std::cell::Cell<u32> = const { std::cell::Cell::new(0) };
 }
 
 pub fn install() {
@@ -28,7 +29,8 @@ pub fn install() {
             "?".into()
         };
         LAST.with(|l| *l.borrow_mut() = Some((loc, msg)));
-        if verbose {
+        // panics outside `guarded` are bugs of the harness itself: always show them
+        if verbose || DEPTH.with(|d| d.get()) == 0 {
             default(info);
         }
     }));
@@ -41,7 +43,10 @@ pub fn take() -> (String, String) {
 
 /// Run `f`, catching panics; Err carries (location, message).
 pub fn guarded<T>(f: impl FnOnce() -> T) -> Result<T, (String, String)> {
-    match std::panic::catch_unwind(std::panic::AssertUnwindSafe(f)) {
+    DEPTH.with(|d| d.set(d.get() + 1));
+    let r = std::panic::catch_unwind(std::panic::AssertUnwindSafe(f));
+    DEPTH.with(|d| d.set(d.get() - 1));
+    match r {
         Ok(v) => Ok(v),
         Err(_) => Err(take()),
     }
